@@ -5,6 +5,7 @@
 //!   harness run                          stdin: `<id> <case>` lines -> `IMPL <id> <result>`
 //!   harness oracle <prop>                stdin: `<id> <case>` lines -> ORACLE lines (replay)
 mod dump;
+mod round3;
 mod alloc;
 mod cases;
 mod exec;
@@ -118,6 +119,7 @@ pub fn oracles_for(prop: &str, c: &Case, impl_result: &str) -> Vec<Verdict> {
         ("C16", Case::Construct(c)) => v.push(oracle_c16(c)),
         ("C16", Case::Ring(d, r, ps)) => v.push(oracle_c16(&Ctor::PolygonRings(*d, vec![(*r, ps.clone())]))),
         ("C18", Case::Size(c)) => v.push(oracle_c18(c)),
+        ("C18", Case::Write { ctors, .. }) => v.push(round3::oracle_record_lengths(ctors)),
         ("C19", Case::Code(c)) => {
             v.push(oracle_c19(*c));
             v.push(oracle_c19_file(*c));
@@ -200,9 +202,18 @@ fn cases_for(prop: &str, tier: &str, seed: u64, out: &mut Out) {
                         // "after finalize or drop": the same shapes with finalize calls interleaved at
                         // random places must leave a file the independent decoder reads identically
                         let mut ops: Vec<WOp> = vec![];
-                        for ct in ctors.iter() {
+                        for (i, ct) in ctors.iter().enumerate() {
                             if rng.chance(1, 3) {
                                 ops.push(WOp::Finalize);
+                            }
+                            if i > 0 && rng.chance(1, 3) {
+                                // a write of another shape type: rejected, must leave no trace
+                                let other = if ct.family() == "point" {
+                                    Ctor::Polyline(Dim::Xy, vec![P { x: 0, y: 0, z: 0, m: NO_DATA_BITS }, P { x: 1.0f64.to_bits(), y: 0, z: 0, m: NO_DATA_BITS }])
+                                } else {
+                                    Ctor::Point(Dim::Xy, P { x: 0, y: 0, z: 0, m: NO_DATA_BITS })
+                                };
+                                ops.push(WOp::Write(other));
                             }
                             ops.push(WOp::Write(ct.clone()));
                         }
@@ -238,6 +249,13 @@ fn cases_for(prop: &str, tier: &str, seed: u64, out: &mut Out) {
                         for _ in 0..6 {
                             cuts.push(rng.below(shp.len() + 1));
                         }
+                        if let Ok(recs) = walk_records(&shp) {
+                            for (off, _) in recs.iter().take(2) {
+                                for dlt in 0..64usize {
+                                    cuts.push(*off as usize * 2 + dlt);
+                                }
+                            }
+                        }
                         for t in cuts {
                             let t = t.min(shp.len());
                             out.case(&Case::Read { target: "generic".into(), shp: shp[..t].to_vec(), shx: if rng.chance(1, 3) { Some(shx.clone()) } else { None } });
@@ -253,6 +271,47 @@ fn cases_for(prop: &str, tier: &str, seed: u64, out: &mut Out) {
                     _ => {}
                 }
             });
+            if prop == "C04" {
+                for n in [70000usize, 1500] {
+                    let id = out.oracle_only_id();
+                    out.verdict(&id, &format!("scenario big-index {}", n), round3::oracle_big_index(n));
+                }
+            }
+            if prop == "C01" || prop == "C18" {
+                // parts longer than any block a writer could reasonably buffer
+                for (fam, d) in ALL13.iter().filter(|(f, _)| *f != "point") {
+                    for n in [257usize, 513, 1025] {
+                        let mut g = Gen { rng: &mut rng, stats: &mut stats, max_parts: 1, max_points: n };
+                        let ps = g.pts(*d, n, Flavor::Exact, false);
+                        let c = match *fam {
+                            "multipoint" => Ctor::Multipoint(*d, ps),
+                            "polyline" => Ctor::PolylineParts(*d, vec![ps.clone(), ps[..3].to_vec()]),
+                            "polygon" => Ctor::PolygonRings(*d, vec![(Role::Outer, ps)]),
+                            _ => Ctor::MultipatchParts(vec![(Kind::Strip, ps.clone()), (Kind::Ring, ps[..4].to_vec())]),
+                        };
+                        stats.hit("shape.long-part");
+                        if prop == "C01" {
+                            run_and_judge(out, &Case::Write { shx: true, ctors: vec![c] });
+                        } else {
+                            run_and_judge(out, &Case::Size(c));
+                        }
+                    }
+                }
+            }
+            if prop == "C01" {
+                // a polygon with a tiny hole (exact, non-zero area down to 2^-60): roles survive the round trip
+                for k in [20i32, 27, 30] {
+                    let s = (2.0f64).powi(-k);
+                    let q = |x: f64, y: f64| P { x: (1000.0 + x * s).to_bits(), y: (2010.0 + y * s).to_bits(), z: 0, m: NO_DATA_BITS };
+                    let big = |x: f64, y: f64| P { x: (1000.0 + x).to_bits(), y: (2010.0 + y).to_bits(), z: 0, m: NO_DATA_BITS };
+                    let c = Ctor::PolygonRings(Dim::Xy, vec![
+                        (Role::Outer, vec![big(-4.0, -4.0), big(-4.0, 4.0), big(4.0, 4.0), big(4.0, -4.0), big(-4.0, -4.0)]),
+                        (Role::Inner, vec![q(0.0, 0.0), q(1.0, 0.0), q(1.0, 1.0), q(0.0, 1.0), q(0.0, 0.0)]),
+                    ]);
+                    stats.hit("polygon.tiny-hole");
+                    run_and_judge(out, &Case::Write { shx: true, ctors: vec![c] });
+                }
+            }
             if prop == "C02" {
                 for (n_old, n_new) in [(40usize, 3usize), (7, 7), (12, 0)] {
                     let id = out.oracle_only_id();
@@ -260,7 +319,19 @@ fn cases_for(prop: &str, tier: &str, seed: u64, out: &mut Out) {
                 }
             }
         }
+        "C14" => {
+            for n in [1500usize, 1025] {
+                let id = out.oracle_only_id();
+                out.verdict(&id, &format!("scenario big-index {}", n), round3::oracle_big_index(n));
+            }
+            let id = out.oracle_only_id();
+            out.verdict(&id, "scenario far-records", round3::oracle_far_records());
+        }
         "C06" => {
+            {
+                let id = out.oracle_only_id();
+                out.verdict(&id, "scenario typed-nth-failure", round3::oracle_typed_nth_failure());
+            }
             let reps = if tier == "thorough" { 12 } else { 1 };
             for rep in 0..reps {
                 // 13 x 14 matrix of (requested, actual); "actual" includes null-shape records
@@ -287,13 +358,45 @@ fn cases_for(prop: &str, tier: &str, seed: u64, out: &mut Out) {
                 }
             }
         }
-        "C07" | "C17" => extra::cases_malformed(prop, tier, &mut rng, &mut stats, out),
+        "C07" | "C17" => {
+            extra::cases_malformed(prop, tier, &mut rng, &mut stats, out);
+            let id = out.oracle_only_id();
+            out.verdict(&id, "scenario far-records", round3::oracle_far_records());
+            // a null-shape record announcing an absurd content length; many parts without their points
+            for words in [-1i32, -2, i32::MIN, -(1 << 30), -(1 << 30) + 1, 1 << 26, (1 << 30) - 1, 1 << 20] {
+                let mut f = vec![0u8; 100];
+                f[0..4].copy_from_slice(&9994i32.to_be_bytes());
+                f[24..28].copy_from_slice(&i32::MAX.to_be_bytes());
+                f[28..32].copy_from_slice(&1000i32.to_le_bytes());
+                f[32..36].copy_from_slice(&5i32.to_le_bytes());
+                f.extend_from_slice(&1i32.to_be_bytes());
+                f.extend_from_slice(&words.to_be_bytes());
+                f.extend_from_slice(&0i32.to_le_bytes());
+                f.extend_from_slice(&[0u8; 24]);
+                stats.hit("mut.null-record-length");
+                run_and_judge(out, &Case::Read { target: "generic".into(), shp: f.clone(), shx: None });
+                let mut x = f[..100].to_vec();
+                x[24..28].copy_from_slice(&54i32.to_be_bytes());
+                x.extend_from_slice(&50i32.to_be_bytes());
+                x.extend_from_slice(&words.to_be_bytes());
+                run_and_judge(out, &Case::Rhist { target: "generic".into(), shp: f, shx: Some(x), ops: vec![ROp::Nth(0), ROp::It(3)] });
+            }
+            for nparts in [5000usize, 1200] {
+                let (m, _) = round3::oracle_many_unbacked_parts(nparts);
+                stats.hit("mut.many-unbacked-parts");
+                run_and_judge(out, &Case::Read { target: "generic".into(), shp: m, shx: None });
+            }
+        }
         "C09" | "C10" => {
             extra::cases_whist(prop, tier, &mut rng, &mut stats, out);
             if prop == "C09" {
                 extra::cases_fault("quick", &mut rng, &mut stats, out);
             }
             if prop == "C10" {
+                for kind in ["null", "huge"] {
+                    let id = out.oracle_only_id();
+                    out.verdict(&id, &format!("scenario custom-rejected {}", kind), round3::oracle_custom_rejected(kind));
+                }
                 extra::cases_dbf_c10(tier, &mut stats, out);
             }
         }
@@ -392,6 +495,16 @@ fn cases_for(prop: &str, tier: &str, seed: u64, out: &mut Out) {
                 let c = g.ctor(fam, d, Flavor::Special, true);
                 run_and_judge(out, &Case::Size(c));
             }
+            // files of several shapes of different sizes: every record header and index entry
+            // announces the length of its own record
+            for i in 0..(if tier == "thorough" { 400 } else { 39 }) {
+                let (fam, d) = ALL13[i % 13];
+                let mut g = Gen { rng: &mut rng, stats: &mut stats, max_parts: 4, max_points: 9 };
+                let ctors = g.shapes(fam, d, 2 + i % 3, true);
+                let id = out.oracle_only_id();
+                let line = show_case(&Case::Write { shx: true, ctors: ctors.clone() });
+                out.verdict(&id, &line, round3::oracle_record_lengths(&ctors));
+            }
         }
         "C19" => {
             let mut codes: Vec<i32> = vec![i32::MIN, i32::MIN + 1, i32::MAX, i32::MAX - 1, 256, 65536, 1 << 24, -256];
@@ -410,8 +523,15 @@ fn cases_for(prop: &str, tier: &str, seed: u64, out: &mut Out) {
             for _ in 0..(if tier == "thorough" { 20000 } else { 1000 }) {
                 codes.push(rng.next() as i32);
             }
-            for c in codes {
+            for c in codes.iter().cloned() {
                 run_and_judge(out, &Case::Code(c));
+            }
+            for vb in [1000u32.to_le_bytes(), 1000u32.to_be_bytes(), [0, 0, 0, 0], [0xff, 0xff, 0xff, 0xff], [1, 2, 3, 4]] {
+                for c in codes.iter().cloned().filter(|c| c.wrapping_shr(24) != 0 || (*c >= -40 && *c <= 70)).take(400) {
+                    let id = out.oracle_only_id();
+                    let v = u32::from_be_bytes(vb);
+                    out.verdict(&id, &format!("scenario header-code-version {} {:08x}", c, v), round3::oracle_header_code_any_version(c, vb));
+                }
             }
             if tier == "thorough" {
                 // every 32-bit value, oracle only (the correspondence samples above validate the translator)
@@ -437,6 +557,7 @@ fn cases_for(prop: &str, tier: &str, seed: u64, out: &mut Out) {
                 out.stat("exhaustive_codes", 1u64 << 32);
             }
         }
+        "C03" => {}
         _ => {
             out.lines.push(format!("ERROR unknown property {}", prop));
         }
